@@ -503,13 +503,13 @@ pub fn run(fields: &[&str]) -> String {
                 enc::words(&v)
             })
         }
-        "ff" => {
+        "ff" | "ffx" => {
             let frs = dfrags(fields[1]);
             let lws = dnums(fields[2]);
             guarded(|| groups_enc(&frs, &wrap_first_fit(&frs, &lws)))
         }
         #[cfg(feature = "full")]
-        "of" => {
+        "of" | "ofx" => {
             let frs = dfrags(fields[1]);
             let lws = dnums(fields[2]);
             let p: Vec<usize> = fields[3].split(':').map(|x| x.parse().unwrap()).collect();
@@ -1112,6 +1112,33 @@ pub fn generate<W: Write>(mode: &str, r: &mut Rng, out: &mut W) {
                 enc::s(r.ps(&gaps)),
                 enc::s(r.ps(&gaps)),
             ]
+        }
+        "ffx" | "ofx" => {
+            // arbitrary doubles, non-finite included: no-panic and shape only
+            let special: [u64; 10] = [
+                0x7ff0000000000000, 0xfff0000000000000, 0x7ff8000000000000, 0x8000000000000000, 0x0000000000000000,
+                0x7fefffffffffffff, 0x7fe1ccf385ebc8a0, 0x3ff0000000000000, 0x4340000000000000, 0x0000000000000001,
+            ];
+            let num = |r: &mut Rng| -> String {
+                match r.below(4) {
+                    0 => format!("x{:016x}", special[r.below(special.len())]),
+                    1 => format!("x{:016x}", r.next()),
+                    _ => r.below(12).to_string(),
+                }
+            };
+            let n = r.below(9);
+            let frs: Vec<String> = (0..n).map(|_| format!("{}:{}:{}", num(r), num(r), num(r))).collect();
+            let nl = r.below(4);
+            let lws: Vec<String> = (0..nl).map(|_| num(r)).collect();
+            let mut f = vec![
+                mode.to_string(),
+                if frs.is_empty() { "~".into() } else { frs.join(",") },
+                if lws.is_empty() { "~".into() } else { lws.join(",") },
+            ];
+            if mode == "ofx" {
+                f.push(format!("{}:{}:{}:{}:{}", r.below(3000), r.below(3000), r.below(6), r.below(50), r.below(50)));
+            }
+            f
         }
         "wrap8" => {
             let crlf = r.chance(1, 5);
